@@ -55,6 +55,16 @@
                              stream the decoder reports BEFORE decoding (cri: row.Stream; every other decoder: none,
                              so nothing is found) (FALSE: an unknown stream counts as not_set) -- RefusedOnlyForStatedReasons.
 
+     M_RootResetPerRecord    Pipeline.In empties the pooled event's root before every decoder that only ADDS fields
+                             (all but json / protobuf, which replace the root) (FALSE: only for raw and cri, so
+                             nginx_error / syslog / csv / postgres records inherit the previous record's fields and
+                             cut-off mark) -- DeliveredDependsOnRecordOnly.
+     M_ExceptionsFirst       IsSpam consults the exception list before the global threshold 0 ("block") is applied
+                             (FALSE: threshold 0 without rules refuses before the exceptions) -- ExemptNeverSpam.
+
+   PART "seq":  two records in a row through ONE pooled event (capacity 1), each oversize-and-cut or within the
+   limit, per decoder class: what is delivered for a record depends on that record and the settings alone.
+
    PART "offs":  the Offsets argument of Pipeline.In: saved per-stream offsets {absent, behind, equal, ahead} for
    not_set / the record's stream / another stream  x  decoder {raw, json without / with a stream field: stream known
    only after decoding; cri: known before}  x  antispam off / on, with an input whose PassEvent says "already
@@ -98,6 +108,7 @@ CONSTANTS
   D_ResidualAfterUnban, D_ExceptionsIgnoredWithRules,
   M_CapPerSource, M_InvertAfterShortcut, M_LowerCopies, M_ErrClearedBeforeDecode, M_SubjectPerException,
   M_FirstRuleWins, M_SourceFallsBackToInputId, M_PrecheckOnlyForKnownStream,
+  M_RootResetPerRecord, M_ExceptionsFirst,
   SKeyMaxLen,       \* skey: records per interleaving
   MSyms,            \* match: symbols of data and values (1 = a, 2 = b, 3 = A, the upper case of 1)
   MDataMax, MValMax,\* match: length bounds of data / values
@@ -109,6 +120,7 @@ B2I(b) == IF b THEN 1 ELSE 0
 Srcs == 1..NSrc
 
 VARIABLES part,
+          sq,                       \* record-sequence case
           ofs,                      \* offsets case
           rl,                       \* rule-list case
           sk,                       \* source-key case
@@ -123,7 +135,7 @@ VARIABLES part,
           win, silent, pb,          \* declarative: arrivals since previous maintenance, silent rounds, may-be-banned
           resid                     \* explanation of D_ResidualAfterUnban: the counter the last maintenance left
 
-vars == <<part, ofs, rl, sk, cr, xl, mt, sz, sc, known, cnt, ts, thrOf, now, hist, win, silent, pb, resid>>
+vars == <<part, sq, ofs, rl, sk, cr, xl, mt, sz, sc, known, cnt, ts, thrOf, now, hist, win, silent, pb, resid>>
 
 -----------------------------------------------------------------------------
 (* ============================ PART size ================================= *)
@@ -194,6 +206,26 @@ SizeExport == [part |-> "size", L |-> sz.L, nl |-> sz.nl, M |-> sz.M, cut |-> sz
                mret |-> In(sz).ret]
 
 NoSz == [L |-> 0, nl |-> FALSE, M |-> 0, cut |-> FALSE, mark |-> FALSE, undec |-> FALSE, committed |-> FALSE]
+
+-----------------------------------------------------------------------------
+(* ============================ PART seq ================================== *)
+
+\* decoder classes: "json" replaces the root; "raw", "cri" and "adding" (nginx_error, syslog, csv, postgres) add fields to it
+SqDecs == {"json", "raw", "cri", "adding"}
+SqCases == {[dec |-> d, overs |-> ov] : d \in SqDecs, ov \in [1..2 -> BOOLEAN]}
+NoSq == [dec |-> "raw", overs |-> <<FALSE, FALSE>>]
+\* the fields record i decodes to are tagged i; 0 is the cut-off mark field
+SqOwn(c, i) == {i} \cup (IF c.overs[i] THEN {0} ELSE {})
+
+(* --- transcription: the pooled event's root across two In calls (same event: capacity 1) --- *)
+SqRootAfter(c, i, before) ==
+  LET reset == IF M_RootResetPerRecord THEN c.dec # "json" ELSE c.dec \in {"raw", "cri"}   \* event.Root.DecodeString("{}")
+      r0 == IF reset THEN {} ELSE before
+      r1 == IF c.dec = "json" THEN {i} ELSE r0 \cup {i}                 \* DecodeBytes replaces / AddField adds
+  IN IF c.overs[i] THEN r1 \cup {0} ELSE r1                        \* if cutoff && field != "": add the mark
+SqDelivered(c, i) == IF i = 1 THEN SqRootAfter(c, 1, {}) ELSE SqRootAfter(c, 2, SqRootAfter(c, 1, {}))
+DeliveredDependsOnRecordOnly == part = "seq" => \A i \in 1..2 : SqDelivered(sq, i) = SqOwn(sq, i)
+SqExport == [part |-> "seq", dec |-> sq.dec, overs |-> sq.overs]
 
 -----------------------------------------------------------------------------
 (* ============================ PART offs ================================= *)
@@ -323,7 +355,8 @@ CriExport == [part |-> "cri", zone |-> cr.zone, stream |-> cr.stream, flag |-> c
 \* one exception: its subject, and whether its rule set matches the record bytes / the source name
 XExc == [name : BOOLEAN, mc : BOOLEAN, mn : BOOLEAN]
 XLists == UNION {[1..n -> XExc] : n \in 1..3}
-NoXl == <<>>
+XGlobals == {-1, 0, 1, 2}
+NoXl == [g |-> 1, rules |-> FALSE, list |-> <<>>]
 
 (* --- transcription: the exception loop of IsSpam (rules == nil) --- *)
 RECURSIVE XLoop(_, _, _)
@@ -338,10 +371,21 @@ XExemptModel(list) == XLoop(list, 1, FALSE)
 
 \* declarative: exempt iff some exception matches its own subject
 XExempt(list) == \E i \in DOMAIN list : IF list[i].name THEN list[i].mn ELSE list[i].mc
-ExceptionListExempts == part = "xlist" => XExemptModel(xl) = XExempt(xl)
-XExport == [part |-> "xlist",
-            excs |-> [i \in DOMAIN xl |-> <<B2I(xl[i].name), B2I(xl[i].mc), B2I(xl[i].mn)>>],
-            exempt |-> XExempt(xl), mex |-> XExemptModel(xl)]
+ExceptionListExempts == part = "xlist" => XExemptModel(xl.list) = XExempt(xl.list)
+
+(* --- transcription: the head of IsSpam around the loop: is the k-th record of a fresh source refused? --- *)
+XSpamModel(c, k) ==
+  IF ~c.rules /\ c.g = -1 THEN FALSE                                     \* rules == nil && threshold == -1
+  ELSE IF ~M_ExceptionsFirst /\ ~c.rules /\ c.g = 0 THEN TRUE            \* (mutant: threshold 0 settles it first)
+  ELSE IF (~c.rules \/ ~D_ExceptionsIgnoredWithRules) /\ XExemptModel(c.list) THEN FALSE
+  ELSE IF c.g = -1 THEN FALSE ELSE IF c.g = 0 THEN TRUE ELSE k >= c.g    \* (the configured rule never matches)
+\* a matching exception never drops anything, whatever the global threshold (with rules: the known deviation)
+ExemptNeverSpam ==
+  part = "xlist" /\ XExempt(xl.list) /\ ~(xl.rules /\ D_ExceptionsIgnoredWithRules) => \A k \in 1..3 : ~XSpamModel(xl, k)
+XExport == [part |-> "xlist", g |-> xl.g, rules |-> xl.rules,
+            excs |-> [i \in DOMAIN xl.list |-> <<B2I(xl.list[i].name), B2I(xl.list[i].mc), B2I(xl.list[i].mn)>>],
+            exempt |-> XExempt(xl.list), mex |-> XExemptModel(xl.list),
+            mspam |-> [k \in 1..3 |-> B2I(XSpamModel(xl, k))]]
 
 -----------------------------------------------------------------------------
 (* ============================ PART match ================================ *)
@@ -523,7 +567,7 @@ Arrive(s, kind, dt) ==
         /\ win' = win1 /\ pb' = pb1 /\ silent' = [silent EXCEPT ![s] = 0]
         /\ resid' = resid1
         /\ hist' = Append(hist, step)
-  /\ UNCHANGED <<part, ofs, rl, sk, cr, xl, mt, sz, sc>>
+  /\ UNCHANGED <<part, sq, ofs, rl, sk, cr, xl, mt, sz, sc>>
 
 Maintain ==
   /\ part = "spam" /\ Len(hist) < MaxSteps
@@ -544,7 +588,7 @@ Maintain ==
         /\ win' = Zero /\ silent' = silent1 /\ pb' = pb1
         /\ resid' = cnt1
         /\ hist' = Append(hist, step)
-  /\ UNCHANGED <<part, ofs, rl, sk, cr, xl, mt, sz, sc, now>>
+  /\ UNCHANGED <<part, sq, ofs, rl, sk, cr, xl, mt, sz, sc, now>>
 
 -----------------------------------------------------------------------------
 Init ==
@@ -553,10 +597,11 @@ Init ==
   /\ IF part = "skey" THEN sk \in SKeyCases ELSE sk = NoSk
   /\ IF part = "offs" THEN ofs \in OffsCases ELSE ofs = NoOfs
   /\ IF part = "cri" THEN cr \in CriCases ELSE cr = NoCr
-  /\ IF part = "xlist" THEN xl \in XLists ELSE xl = NoXl
+  /\ IF part = "xlist" THEN \E g \in XGlobals, r \in BOOLEAN, l \in XLists : xl = [g |-> g, rules |-> r, list |-> l] ELSE xl = NoXl
+  /\ IF part = "seq" THEN sq \in SqCases ELSE sq = NoSq
   /\ IF part = "size" THEN sz \in SizeCasesBounded /\ sc = NoSc /\ mt = NoMt
      ELSE IF part = "match" THEN MatchInit /\ sz = NoSz /\ sc = NoSc
-     ELSE IF part \in {"cri", "xlist", "rlist", "skey", "offs"} THEN sz = NoSz /\ sc = NoSc /\ mt = NoMt
+     ELSE IF part \in {"cri", "xlist", "rlist", "skey", "offs", "seq"} THEN sz = NoSz /\ sc = NoSc /\ mt = NoMt
      ELSE /\ sz = NoSz /\ mt = NoMt
           /\ \E T \in Ts \cup (IF WithDisabled THEN {-1} ELSE {}), U \in Us, mode \in Modes :
                \E T2 \in (IF mode = "rules" /\ NSrc >= 2 THEN T2s ELSE {0}) :
@@ -583,7 +628,7 @@ PrevMb(s) == IF Len(hist) = 1 THEN 0 ELSE hist[Len(hist) - 1].mb[s]
 Flip(s) == Last.mb[s] = 1 /\ PrevMb(s) = 0          \* banned(s) became true in the last step
 
 TypeOK ==
-  /\ part \in {"size", "spam", "match", "cri", "xlist", "rlist", "skey", "offs"}
+  /\ part \in {"size", "spam", "match", "cri", "xlist", "rlist", "skey", "offs", "seq"}
   /\ part = "spam" => /\ \A s \in Srcs : cnt[s] >= 0 /\ (s \notin known => cnt[s] = 0)
                       /\ \A s \in known : cnt[s] <= sc.U * thrOf[s] + MaxSteps
 
@@ -644,6 +689,7 @@ Export ==
   ELSE IF part = "rlist" THEN PrintT(ToJson(RExport))
   ELSE IF part = "skey" THEN PrintT(ToJson(SExport))
   ELSE IF part = "offs" THEN PrintT(ToJson(OExport))
+  ELSE IF part = "seq" THEN PrintT(ToJson(SqExport))
   ELSE IF Len(hist) = MaxSteps THEN PrintT(ToJson(SpamExport))
   ELSE TRUE
 
